@@ -219,6 +219,25 @@ def _normalize(lt: LT, eq, implied) -> List[Any]:
             if z3.is_false(c) or not s.lt.segs or implied(c, z3.BoolVal(False)):
                 continue  # literally false, nothing guarded, or impossible on this path
             inner = LT(_normalize(s.lt, eq, implied))
+            if not inner.segs:
+                continue
+            if all(isinstance(x, Guard) for x in inner.segs):
+                # Guard(a, [Guard(b, X), Guard(c, Y)]) == [Guard(a and b, X), Guard(a and c, Y)]
+                for x in inner.segs:
+                    cc = z3.simplify(z3.And(c, x.cond))
+                    if z3.is_false(cc):
+                        continue
+                    if out and isinstance(out[-1], Guard) and _same_shape(out[-1].lt, x.lt):
+                        try:
+                            same = lt_equal(out[-1].lt, x.lt, eq, lambda v, i, t: v, implied, lambda p, q: z3.BoolVal(False))
+                        except ShapeMismatch:
+                            same = None
+                        if same is not None and implied(same, z3.BoolVal(True)) and \
+                                implied(z3.And(out[-1].cond, cc), z3.BoolVal(False)):
+                            out[-1] = Guard(z3.Or(out[-1].cond, cc), x.lt)
+                            continue
+                    out.append(Guard(cc, x.lt))
+                continue
             if out and isinstance(out[-1], Guard) and _same_shape(out[-1].lt, inner):
                 try:
                     same = lt_equal(out[-1].lt, inner, eq, lambda v, i, t: v, implied, lambda p, q: z3.BoolVal(False))
